@@ -19,6 +19,8 @@ pub mod c13;
 pub mod c14;
 pub mod c16;
 pub mod c17;
+pub mod c18;
+pub mod c19;
 pub mod c20;
 
 pub fn run(id: &str, tier: Tier) -> Option<CheckResult> {
@@ -39,6 +41,8 @@ pub fn run(id: &str, tier: Tier) -> Option<CheckResult> {
         "C14" => Some(c14::run(tier)),
         "C16" => Some(c16::run(tier)),
         "C17" => Some(c17::run(tier)),
+        "C18" => Some(c18::run(tier)),
+        "C19" => Some(c19::run(tier)),
         "C20" => Some(c20::run(tier)),
         _ => None,
     }
@@ -62,6 +66,8 @@ pub fn replay(id: &str, case: &Value) -> Option<Vec<Violation>> {
         "C14" => Some(c14::replay(case)),
         "C16" => Some(c16::replay(case)),
         "C17" => Some(c17::replay(case)),
+        "C18" => Some(c18::replay(case)),
+        "C19" => Some(c19::replay(case)),
         "C20" => Some(c20::replay(case)),
         _ => None,
     }
